@@ -354,6 +354,18 @@ func checkBody(t rk.Failer, slot, body string) {
 		judgeString(t, slot, "single-after-context", ctx+"x = '"+body+"'", classifyQuoted(body, '\''), false, interesting(body, '\''))
 		judgeString(t, slot, "backquote-after-context", ctx+"`"+body+"` = 1", classifyBackquote(body), true, interesting(body, 0))
 	}
+	if ctxTurn%4 == 1 && !strings.Contains(body, "`") && body != "" {
+		// the same characters as a back-quoted name (raw) and as a quoted literal (escapes decoded) in one script:
+		// each keeps its own meaning, whichever comes first
+		judgeString(t, slot, "double-after-same-body-name", "`"+body+"` = 1\nx = \""+body+"\"", classifyQuoted(body, '"'), false, interesting(body, '"'))
+		judgeString(t, slot, "single-after-same-body-name", "`"+body+"` = 1\nx = '"+body+"'", classifyQuoted(body, '\''), false, interesting(body, '\''))
+		if classifyQuoted(body, '"').V == vAccept && !strings.Contains(body, "\n") {
+			judgeString(t, slot, "name-after-same-body-double", "x = \""+body+"\"\n`"+body+"` = 1", classifyBackquote(body), true, interesting(body, 0))
+		}
+		if classifyQuoted(body, '\'').V == vAccept && !strings.Contains(body, "\n") {
+			judgeString(t, slot, "name-after-same-body-single", "x = '"+body+"'\n`"+body+"` = 1", classifyBackquote(body), true, interesting(body, 0))
+		}
+	}
 	judgeString(t, slot, "double", "x = \""+body+"\"", classifyQuoted(body, '"'), false, interesting(body, '"'))
 	judgeString(t, slot, "single", "x = '"+body+"'", classifyQuoted(body, '\''), false, interesting(body, '\''))
 	judgeString(t, slot, "triple-double", "x = \"\"\""+body+"\"\"\"", classifyTriple(body), false, interesting(body, 0))
@@ -807,6 +819,34 @@ func TestUnicodeEscapePlanes(t *testing.T) {
 		}
 	}
 	evid.Exhaustive("plane 0..17 x low half x quote x hex case", n)
+}
+
+// TestFloatGrammar: every combination of integer part, fraction (absent, empty, digits) and exponent (absent, either
+// letter case, either sign, zero, leading zero) - also a dot without fraction digits followed by an exponent.
+func TestFloatGrammar(t *testing.T) {
+	ints := []string{"0", "5", "12", "9007199254740993"}
+	fracs := []string{"", ".", ".0", ".5", ".25", ".000", ".10"}
+	exps := []string{"", "e3", "E3", "e+3", "E-2", "e0", "E+0", "e-0", "e03", "e+03", "e308", "e-324"}
+	n := 0
+	for _, ip := range ints {
+		for _, fr := range fracs {
+			for _, ex := range exps {
+				if fr == "" && ex == "" {
+					continue // an integer
+				}
+				sp := ip + fr + ex
+				want, err := strconv.ParseFloat(sp, 64)
+				if err != nil {
+					continue
+				}
+				for _, sign := range []string{"", "-"} {
+					judgeNumber(t, "float-grammar", sp, sign, numExpect{f: want}, true)
+					n++
+				}
+			}
+		}
+	}
+	evid.Exhaustive("integer part x fraction x exponent x sign", n)
 }
 
 // TestLeadingZeros: a numeral that starts with 0 and goes on with digits follows Go's base rule (the digits are
